@@ -181,7 +181,8 @@ impl HexNumber {
     /// Computes the actual numerical value represented by this hexadecimal number.
     pub fn compute_value(&self) -> f64 {
         if let Some((exponent, _)) = self.exponent {
-            (self.integer * 2_u64.pow(exponent)) as f64
+            // in floating point: the product does not always fit in 64 bits
+            (self.integer as f64) * 2_f64.powi(exponent.min(i32::MAX as u32) as i32)
         } else {
             self.integer as f64
         }
